@@ -82,22 +82,29 @@ var _ = strings.HasPrefix
 //@ modifies nothing
 
 //@ func (*parser).parseTokendef
-//@ props C11 C13
+//@ props C11 C13 C07
 //@ use STREAM
 //@ requires REP(p) && CUR(p) && p.peekCount == 0
 //@ requires p.current.Kind == Charater ==> len(p.current.Value) >= 1
 //@ ensures [C13] REP(p) && CUR(p) && p.peekCount == 0 && fetched > old(fetched)
 //@ after_stmt [C11] "id := Idendity{" p.current.Kind == Charater ==> id.Value == int(rune_at(p.current.Value, 0))
+// a declared token is a terminal with the line's tag; its value is the number written after it, else 0 (= to be numbered automatically)
+//@ before_stmt [C11,C07] "Tokdef.IdentifyList = append(Tokdef.IdentifyList, id)" id.IDTyp == TERMID && id.Tag == Tag
+//@ after_stmt [C11] "value = intVar" value == atoi(p.current.Value)
+//@ before_stmt [C11] "id.Value = value" value == 0 || (p.current.Kind == Number && value == atoi(p.current.Value))
 //@ loop 0: invariant REP(p) && CUR(p) && p.peekCount == 0 && fetched > old(fetched)
 //@ loop 0: invariant p.current.Kind == Charater ==> len(p.current.Value) >= 1
 //@ loop 0: decreases spec_E() + 1 - fetched
 
 //@ func (*parser).parsePrecList
-//@ props C11 C13
+//@ props C11 C13 C04 C07
 //@ use STREAM
 //@ requires Tklist != nil && REP(p) && CUR(p) && p.peekCount == 0 && (p.current.Kind == Charater ==> len(p.current.Value) >= 1)
 //@ ensures [C13] REP(p) && CUR(p) && p.peekCount == 0 && fetched > old(fetched)
 //@ after_stmt [C11] "idvalue = " idvalue == int(rune_at(p.current.Value, 0))
+// a token introduced by a precedence line: a character literal is numbered by its character, a name gets 0 (= to be numbered automatically); it carries the line's tag
+//@ after_stmt [C11,C07] "id := Idendity{" id.Value == ite(p.current.Kind == Charater, int(rune_at(p.current.Value, 0)), 0) && id.IDTyp == TERMID && id.Tag == Tag
+//@ before_stmt [C04] "res = append(res, node)" node.AssocType == assocTy && assocTy == ite(old(p.current.Kind) == LeftAssoc, LeftAssocType, ite(old(p.current.Kind) == RightAssoc, RightAssocype, NonAssocType))
 //@ loop 0: invariant REP(p) && p.peekCount <= 1 && fetched - p.peekCount >= old(fetched) && (p.peekCount == 0 ==> CUR(p))
 //@ loop 0: decreases spec_E() + 2 - (fetched - p.peekCount)
 
@@ -507,20 +514,20 @@ func spec_sent(i int) Token { panic("spec") }
 //@ def assocOf(a PrecAssocType) = ite(a == LeftAssocType, symbol.LEFT, ite(a == RightAssocype, symbol.RIGHT, symbol.NONE))
 
 //@ func (*Walker).BuildLALR1
-//@ props_tagged_only C11 C04 C12
+//@ props_tagged_only C11 C04 C12 C07 C01 C02
 //@ requires w != nil
 //@ may_panic "Check the nonterminal"
 //@ may_panic "Dected infinite loop"
 //@ may_panic "not generate root node"
 //@ before_stmt [C11] "g.InsertNewSymbol(dollar)" dollar.Value == -1 && dollar.Name == "$"
-//@ before_stmt [C11] "g.InsertNewSymbol(sy)" sy.Value == id.Value && sy.Name == id.Name && sy.Tag == id.Tag
+//@ before_stmt [C11,C07] "g.InsertNewSymbol(sy)" sy.Value == id.Value && sy.Name == id.Name && sy.Tag == id.Tag
 //@ before_stmt [C04] "g.InsertNewSymbol(sy)" id.IDTyp != NONTERMID && v.preMap[id.Name] != nil ==> sy.Prec == v.preMap[id.Name].Prec && sy.PrecType == assocOf(v.preMap[id.Name].AssocType)
 //@ before_stmt [C04] "g.InsertNewSymbol(sy)" id.IDTyp == NONTERMID || v.preMap[id.Name] == nil ==> sy.Prec == -1 && sy.PrecType == symbol.NONE
 //@ before_stmt [C04] "g.InsertNewRules(r)" (onerule.PrecIdSym != nil ==> r.PrecSymbol == g.SymbolsMap[onerule.PrecIdSym.Id.Name]) && (onerule.PrecIdSym == nil ==> r.PrecSymbol == nil)
-//@ before_stmt [C04] "g.InsertNewRules(r)" len(g.ProductoinRules) == 1 + idx2 && r.LeftPart == g.SymbolsMap[onerule.LeftPart.Name] && len(r.RighPart) == len(onerule.RighPart)
-//@ before_stmt [C04] "g.InsertNewRules(r)" forall k int :: 0 <= k && k < len(r.RighPart) ==> r.RighPart[k] == g.SymbolsMap[onerule.RighPart[k].Name]
-//@ loop 2: invariant [C04] len(g.ProductoinRules) == 1 + idx2
-//@ loop 3: invariant [C04] len(rightsyms) == idx3 && (forall k int :: 0 <= k && k < idx3 ==> rightsyms[k] == g.SymbolsMap[onerule.RighPart[k].Name])
+//@ before_stmt [C04,C07,C01,C02] "g.InsertNewRules(r)" len(g.ProductoinRules) == 1 + idx2 && r.LeftPart == g.SymbolsMap[onerule.LeftPart.Name] && len(r.RighPart) == len(onerule.RighPart)
+//@ before_stmt [C04,C07,C01,C02] "g.InsertNewRules(r)" forall k int :: 0 <= k && k < len(r.RighPart) ==> r.RighPart[k] == g.SymbolsMap[onerule.RighPart[k].Name]
+//@ loop 2: invariant [C04,C07,C01,C02] len(g.ProductoinRules) == 1 + idx2
+//@ loop 3: invariant [C04,C07,C01,C02] len(rightsyms) == idx3 && (forall k int :: 0 <= k && k < idx3 ==> rightsyms[k] == g.SymbolsMap[onerule.RighPart[k].Name])
 // a nonterminal identifier (left-hand side of a rule, %type or %start name) becomes a nonterminal symbol, so the check below sees it
 //@ before_stmt [C12] "g.InsertNewSymbol(sy)" sy.IsNonTerminator == (id.IDTyp == NONTERMID) && sy.CanTerminate == (id.IDTyp != NONTERMID)
 //@ loop 4: invariant [C12] forall i int :: 0 <= i && i < idx4 && g.Symbols[i].IsNonTerminator ==> has(g.VnSet, g.Symbols[i])
